@@ -612,8 +612,6 @@ func (pr *ProtoArray) OnPrune(ctx context.Context, anchorRoot Root, anchorSlot S
 		}
 		prunedUpTo++
 	}
-	// adjust the slot we know for the anchor root, everything before it was pruned.
-	pr.blockSlots[anchorRoot] = anchorSlot
 	for _, p := range pruned[:prunedUpTo] {
 		delete(pr.indices, p.node.Ref)
 		// Remove the block-slots ref
@@ -623,6 +621,9 @@ func (pr *ProtoArray) OnPrune(ctx context.Context, anchorRoot Root, anchorSlot S
 		// update offset
 		pr.indexOffset++
 	}
+	// adjust the slot we know for the anchor root, everything before it was pruned.
+	// This comes after the deletions: a pruned node may carry the anchor's root (at an earlier slot).
+	pr.blockSlots[anchorRoot] = anchorSlot
 	return err
 }
 
